@@ -249,6 +249,22 @@ func init() {
 			"<%= for (k, v) in f(1)(2) { %>s<% } %>", "<%= for (x) in a().b[0].c { %>t<% } %>", "<%= for (x) in a().B", "<%= for (x) in a().B {", "<%= for (x) in a() { %>u<% } %>", "<%= for (x) in a()() { %>", "<%= for (x) in a().b() { x } %>"} {
 			e.addParseCase("for-chain", in)
 		}
+		// every construct that nests, nested deep inside itself (Parse must stay fast: a printer or a
+		// parser function that does repeated work per level is exponential)
+		for _, depth := range []int{8, 24, 48, 72} {
+			rep := func(open, close string) string {
+				return strings.Repeat(open, depth) + "x" + strings.Repeat(close, depth)
+			}
+			for _, in := range []string{
+				"<%= " + rep("tag(\"d\") { %>a<%= ", " %>b<% }") + " %>",
+				rep("<%= if (c) { %>a", "b<% } %>"), rep("<%= if (c) { %>a<% } else { %>", "<% } %>"), rep("<%= for (v) in xs { %>a", "b<% } %>"),
+				rep("<% let f = fn(a) { %>a", "b<% } %>"), "<%= " + rep("(", ")") + " %>", "<%= " + rep("[", "]") + " %>", "<%= " + rep("{k: ", "}") + " %>",
+				"<%= " + rep("f(", ")") + " %>", "<%= " + rep("!", "") + " %>", "<%= x" + strings.Repeat("[0]", depth) + " %>", "<%= x" + strings.Repeat(".f()", depth) + " %>",
+				"<%= " + rep("f(1, {a: [", "]})") + " %>", "<%= " + rep("partial(\"p\") { %>", "<% }") + " %>",
+			} {
+				e.addParseCase("deep", in)
+			}
+		}
 		for _, in := range []string{"<%# abc", "<% break( %>", "<% for (x) in ) { %>", "<%= {a: ) } %>", "<%= xs[)] %>", "<% break[1] %>", "<%= [1, )] %>", "a\\<", "\\<", "<%= {let: 1} %>", "<% if (true) { } else if (let) { } %>"} {
 			e.addParseCase("corpus", in)
 		}
